@@ -128,6 +128,22 @@ CHECKS = {
         "DESIGN.md section 6 C14",
         "E1",
     ),
+    "C16": (
+        "exploration",
+        "bounded program x input enumeration: single-deviation neighbourhood of valid objects (every declaration-violating change at every field at every depth), classified by the reference semantics, executed on the generated serializer",
+        "Every valid body x base objects x the full catalogue of single invalidating changes; serialize must raise SerializationError/ValueError and never return.",
+        "A change is judged only when M10 refuses the changed object; constructor-rejected objects are counted, not judged.",
+        "DESIGN.md section 6 C16",
+        "E3",
+    ),
+    "C19": (
+        "exploration",
+        "bounded program x instance x operation-history enumeration on generated classes (setattr of every public name at every nesting level, caller-side list mutation, repeated serialize)",
+        "Every valid body: every value gets the aliasing history on constructed and deserialized instances; the richest values get every history of length <= 2/3 over the full mutation menu.",
+        "Public names only; blobs not mutated by the caller; strings made history-unique so process-wide caches cannot mask a change.",
+        "DESIGN.md section 6 C19",
+        "E3",
+    ),
 }
 
 NOT_YET = {}
